@@ -76,6 +76,10 @@ PROGRAMS = {
                                    'class Hold<int v> { int h = v; }\nforeach d = [A, B] in def : Hold<d.p>;'),
     "common_class_two_levels": ('class R1; class M1 : R1; class L1 : M1; class Q { int q = 1; } class M3 : R1;\ndef a : L1, Q; def b : Q, M3;\n'
                                 'def u { Q x = !if(1, a, b); int y = !if(1, a, b).q; list<Q> l = [a, b]; }'),
+    # the type of `!cast<T>(x)` is T, whatever x was
+    "cast_is_its_annotation": ('class Enc<bits<4> lo, int i> { bits<8> wide = !cast<int>(lo); int back = !cast<int>(wide); }\n'
+                               'class Two<bits<4> a, bits<8> b> { list<int> l = [!cast<int>(a), !cast<int>(b)]; int s = !add(!cast<int>(a), !cast<int>(b)); }\n'
+                               'def e : Enc<3, 2>; def t : Two<1, 2>;'),
     "named_targs": 'class A<int x, int y = 2, string z = "q"> { int s = !add(x, y); string t = z; } def a : A<1>; def b : A<1, 3>; def c : A<1, 3, "w">;',
     "nested_foreach": 'class A<int i, int j> { int s = !mul(i, j); } foreach i = [1, 2] in foreach j = [3, 4] in def p#i#_#j : A<i, j>;',
     "defvar_scopes": 'defvar base = 10; class A<int n> { int v = !add(n, base); } foreach i = [1,2] in { defvar k = !add(i, base); def d#i : A<k>; }',
@@ -110,6 +114,8 @@ FAULTY = {
     "if_or_nothing_template_argument": 'defvar c = 1; class Takes<list<int> xs> { list<int> v = xs; } def t : Takes<!if(c, «["a", "b"]», [])>;',
     "if_derived_or_base": 'class B; class D : B; def d1 : D; def b1 : B; def u { D bad = «!if(1, d1, b1)»; }',
     "if_base_or_derived": 'class B; class D : B; def d1 : D; def b1 : B; def u { D bad = «!if(1, b1, d1)»; }',
+    "cast_narrower_bits": 'class F<int i> { bits<8> g = «!cast<bits<4> >(i)»; } def f : F<1>;',
+    "cast_list_of_other_element": 'def u { list<string> names = «!cast<list<int> >([]<int>)»; }',
     "bit_range_too_narrow": 'def u { bits<4> b = {1,0,1,0}; bits<2> w = «b{3...0}»; }',
 }
 
